@@ -37,7 +37,11 @@ def sx(v, bits):
 
 EXT = {'i64': lambda v: v, 'u64': lambda v: v, 'p': lambda v: v, 'i32': lambda v: sx(v, 32), 'u32': lambda v: v & 0xffffffff,
        'i16': lambda v: sx(v, 16), 'u16': lambda v: v & 0xffff, 'i8': lambda v: sx(v, 8), 'u8': lambda v: v & 0xff}
-RETS = ['i64', 'i32', 'u8', 'd', 'f', 'ld']
+RETS = ['i64', 'i32', 'u8', 'd', 'f', 'ld', 'u32', 'i8', 'i16', 'u16', 'u64', 'p']   # (wave 7) every result type
+# (wave 7) second results: functions with TWO results, every mix of classes in both orders
+RETS2 = ['i64', 'i64', 'd', 'd', 'f', 'i32', 'u32', 'u8', 'i16', 'p', 'ld']
+# pairs a C caller sees as a two-eightbyte structure (f,f would share one eightbyte; ld pairs are x87 / MEMORY)
+C_PAIR_T = ['i64', 'i64', 'd', 'd', 'f', 'i32', 'u32', 'u8', 'i16', 'u16', 'i8', 'p', 'u64']
 SIZES = {0: [8, 16, 17, 24, 40, 64], 1: [1, 3, 7, 8, 9, 12, 15, 16], 2: [4, 8, 12, 16], 3: [9, 12, 13, 16], 4: [9, 12, 13, 16]}
 RBLK_SIZES = [8, 16, 24, 48]
 # native C callees of harness/c03_prog.h: name -> parameter
@@ -45,10 +49,16 @@ CNAT = {'ext_s1': ('blk', 1, 1), 'ext_s4': ('blk', 1, 4), 'ext_s8': ('blk', 1, 8
         'ext_sf4': ('blk', 2, 4), 'ext_sd8': ('blk', 2, 8), 'ext_sd16': ('blk', 2, 16),
         'ext_sid': ('blk', 3, 16), 'ext_sdi': ('blk', 4, 16),
         'ext_m17': ('blk', 0, 17), 'ext_m24': ('blk', 0, 24), 'ext_m40': ('blk', 0, 40),
-        'ext_i64': 'i64', 'ext_i32': 'i32', 'ext_u8': 'u8', 'ext_i16': 'i16', 'ext_f1': 'f', 'ext_d1': 'd'}
+        'ext_i64': 'i64', 'ext_i32': 'i32', 'ext_u8': 'u8', 'ext_i16': 'i16', 'ext_f1': 'f', 'ext_d1': 'd',
+        'ext_ri8': 'i64', 'ext_ru8': 'i64', 'ext_ri16': 'i64', 'ext_ru16': 'i64', 'ext_ri32': 'i64', 'ext_ru32': 'i64', 'ext_ru64': 'i64'}
+# (wave 7) result type of the prototype a native callee is called through (default i64): the C function returns the
+# whole 64-bit hash, the caller has to narrow it to the prototype's type
+CNAT_RET = {'ext_ri8': 'i8', 'ext_ru8': 'u8', 'ext_ri16': 'i16', 'ext_ru16': 'u16', 'ext_ri32': 'i32', 'ext_ru32': 'u32', 'ext_ru64': 'u64'}
 CNAT_FAMS = [['ext_s1', 'ext_s4', 'ext_s8', 'ext_s12', 'ext_s16'], ['ext_sf4', 'ext_sd8', 'ext_sd16'],
              ['ext_s16', 'ext_sd16', 'ext_sid', 'ext_sdi', 'ext_m17', 'ext_m24'], ['ext_s8', 'ext_sd8', 'ext_i64', 'ext_d1'],
-             ['ext_m17', 'ext_m24', 'ext_m40'], ['ext_i64', 'ext_i32', 'ext_u8', 'ext_i16'], ['ext_f1', 'ext_d1']]
+             ['ext_m17', 'ext_m24', 'ext_m40'], ['ext_i64', 'ext_i32', 'ext_u8', 'ext_i16'], ['ext_f1', 'ext_d1'],
+             ['ext_i64', 'ext_ri8', 'ext_ru8', 'ext_ri16', 'ext_ru16', 'ext_ri32', 'ext_ru32', 'ext_ru64'],
+             ['ext_ri32', 'ext_ru32', 'ext_i64'], ['ext_ri8', 'ext_ru8', 'ext_ri16', 'ext_ru16']]
 
 
 def rand_param(rng):
@@ -86,7 +96,12 @@ def family(rng, what):
     elif what == 'ftype':
         foc = ['f', 'd', 'ld']
     elif what == 'ret':
-        return [(pre + post, r) for r in RETS]
+        return [(pre + post, r) for r in rng.sample(RETS, rng.randint(4, len(RETS)))]
+    elif what == 'mret':    # two results: the same first / second type with every other type in the other place, both orders
+        t = rng.choice(RETS2)
+        fam = [(pre + post, (t, u) if rng.random() < 0.5 else (u, t)) for u in rng.sample(sorted(set(RETS2)), rng.randint(3, 6))]
+        fam += [(pre + post, (t,)), (pre + post, fam[0][1][::-1])]    # one result only; the first pair in the other order
+        return [f for k, f in enumerate(fam) if f not in fam[:k]]
     else:   # nargs
         base = pre + post
         ext = [p for p in (rand_param(rng), rand_param(rng)) if not A.is_rblk(p)]
@@ -100,11 +115,12 @@ def family(rng, what):
 
 def gen_program(rng):
     nfam = rng.randint(1, 3)
-    kinds = [rng.choice(['size', 'size', 'size', 'kind', 'itype', 'ftype', 'ret', 'nargs']) for _ in range(nfam)]
+    kinds = [rng.choice(['size', 'size', 'size', 'kind', 'itype', 'ftype', 'ret', 'ret', 'nargs', 'mret', 'mret']) for _ in range(nfam)]
     callees, calls = [], []       # calls: ('mir', callee index, how) | ('c', name) | ('va', k)
     for what in kinds:
         for params, ret in family(rng, what):
-            callees.append(dict(name='tw%d' % len(callees), params=list(params), ret=ret))
+            rets = list(ret) if isinstance(ret, tuple) else [ret]
+            callees.append(dict(name='tw%d' % len(callees), params=list(params), ret=', '.join(rets), rets=rets))
             calls.append(('mir', len(callees) - 1, rng.choice(['reg', 'reg', 'name'])))
     if rng.random() < 0.6:
         kinds.append('cnat')
@@ -117,11 +133,19 @@ def gen_program(rng):
             calls.append(('va', k))
     if rng.random() < 0.5:       # families interleaved instead of one after the other
         rng.shuffle(calls)
-    return dict(callees=callees, calls=calls, kinds=kinds)
+    # (wave 7) entries with two results called from C through their public address (and by MIR_interp_arr)
+    mres = []
+    for k in range(rng.randint(1, 3)):
+        while True:
+            ts = [rng.choice(C_PAIR_T), rng.choice(C_PAIR_T)]
+            if ts != ['f', 'f']:
+                break
+        mres.append(dict(name='mre%d' % k, rets=ts))
+    return dict(callees=callees, calls=calls, kinds=kinds, mres=mres)
 
 
 def callee_text(c):
-    o = ['%s: func %s' % (c['name'], A.sig_text(c)), '  local i64:r, i64:t, d:dt, f:ft, ld:rx']
+    o = ['%s: func %s' % (c['name'], A.sig_text(c)), '  local i64:r, i64:t, d:dt, f:ft, ld:rx, ' + RLOCALS]
     b = ['mov r, 17', 'mov t, 0']
     for j, p in enumerate(c['params']):
         b += A.fold_param(p, 'a%d' % j)
@@ -129,11 +153,34 @@ def callee_text(c):
         if A.is_rblk(p):
             for off in range(0, p[1], 8):
                 b += ['add t, r, %d' % off, 'mov i64:%d(a%d), t' % (off, j)]
-    b += {'i64': ['ret r'], 'i32': ['ext32 t, r', 'ret t'], 'u8': ['uext8 t, r', 'ret t'],
-          'd': ['and t, r, 1048575', 'i2d dt, t', 'dmul dt, dt, 0.5', 'ret dt'],
-          'f': ['and t, r, 65535', 'i2f ft, t', 'fmul ft, ft, 0.5f', 'ret ft'],
-          'ld': ['and t, r, 1048575', 'i2ld rx, t', 'ret rx']}[c['ret']]
+    b += ret_code(c['rets'], 'r')
     return o + ['  ' + l for l in b] + ['  endfunc']
+
+
+RLOCALS = 'i64:q0, i64:q1, d:qd0, d:qd1, f:qf0, f:qf1, ld:qx0, ld:qx1'
+NARROW = {'i64': 'mov', 'u64': 'mov', 'p': 'mov', 'i32': 'ext32', 'u32': 'uext32', 'i16': 'ext16', 'u16': 'uext16', 'i8': 'ext8', 'u8': 'uext8'}
+
+
+def ret_code(rets, h):
+    """the function's results from the hash in register h (result k: res_hash (h, k) narrowed / converted to its type)"""
+    b, regs = [], []
+    for k, ty in enumerate(rets):
+        b.append('mov q%d, %s' % (k, h) if k == 0 else 'mul q%d, %s, 33' % (k, h))
+        if k:
+            b.append('add q%d, q%d, %d' % (k, k, k))
+        if ty in NARROW:
+            b.append('%s q%d, q%d' % (NARROW[ty], k, k))
+            regs.append('q%d' % k)
+        elif ty == 'd':
+            b += ['and q%d, q%d, 1048575' % (k, k), 'i2d qd%d, q%d' % (k, k), 'dmul qd%d, qd%d, 0.5' % (k, k)]
+            regs.append('qd%d' % k)
+        elif ty == 'f':
+            b += ['and q%d, q%d, 65535' % (k, k), 'i2f qf%d, q%d' % (k, k), 'fmul qf%d, qf%d, 0.5f' % (k, k)]
+            regs.append('qf%d' % k)
+        else:
+            b += ['and q%d, q%d, 1048575' % (k, k), 'i2ld qx%d, q%d' % (k, k)]
+            regs.append('qx%d' % k)
+    return b + ['ret ' + ', '.join(regs)]
 
 
 def fconst(p, j):
@@ -148,7 +195,7 @@ def call_lines(d, k, call):
     if call[0] == 'c':
         p = CNAT[call[1]]
         arg = A.ptext(p, 'bp0') if A.is_blk(p) else (fconst(p, 0) if p in ('f', 'd') else 'iv0')
-        return ['call pc_%s, %s, ri, %s' % (call[1], call[1], arg), 'mov t, ri'] + A.FOLD
+        return ['mov ri, -1', 'call pc_%s, %s, ri, %s' % (call[1], call[1], arg), 'mov t, ri'] + A.FOLD
     c = d['callees'][call[1]]
     args = []
     for j, p in enumerate(c['params']):
@@ -162,14 +209,18 @@ def call_lines(d, k, call):
             args.append(fconst(p, j))
         else:
             args.append('iv%d' % j)
-    res = {'i64': 'ri', 'i32': 'ri', 'u8': 'ri', 'd': 'rd', 'f': 'rf', 'ld': 'rx'}[c['ret']]
+    res = [{'d': 'rd', 'f': 'rf', 'ld': 'rx'}.get(ty, 'ri') + ('2' if k else '') for k, ty in enumerate(c['rets'])]
+    for x in res:     # whatever the register held before is not part of the result
+        if x.startswith('ri'):
+            o.append('mov %s, -1' % x)
     tgt = c['name']
     if call[2] == 'reg':
         o.append('mov t3, %s' % c['name'])
         tgt = 't3'
-    o.append('call p_%s, %s, %s%s' % (c['name'], tgt, res, ''.join(', ' + a for a in args)))
-    o += {'ri': ['mov t, ri'], 'rd': ['dmul dt, rd, 2.0', 'd2i t, dt'], 'rf': ['f2d dt, rf', 'dmul dt, dt, 2.0', 'd2i t, dt'],
-          'rx': ['ld2i t, rx']}[res] + A.FOLD
+    o.append('call p_%s, %s, %s%s' % (c['name'], tgt, ', '.join(res), ''.join(', ' + a for a in args)))
+    for x in res:
+        o += {'ri': ['mov t, %s' % x], 'rd': ['dmul dt, %s, 2.0' % x, 'd2i t, dt'], 'rf': ['f2d dt, %s' % x, 'dmul dt, dt, 2.0', 'd2i t, dt'],
+              'rx': ['ld2i t, %s' % x]}[x[:2]] + A.FOLD
     for p in c['params']:
         if A.is_rblk(p):
             for off in range(0, p[1], 8):
@@ -179,7 +230,7 @@ def call_lines(d, k, call):
 
 def driver_text(d, name, calls):
     o = ['%s: func i64, i64:a0, i64:a1' % name,
-         '  local i64:r, i64:t, i64:t3, d:dt, i64:ri, d:rd, f:rf, ld:rx, i64:buf, i64:rb, '
+         '  local i64:r, i64:t, i64:t3, d:dt, i64:ri, d:rd, f:rf, ld:rx, i64:ri2, d:rd2, f:rf2, ld:rx2, i64:buf, i64:rb, '
          + ', '.join('i64:iv%d' % k for k in range(NP)) + ', ' + ', '.join('i64:bp%d' % k for k in range(NP))]
     b = ['mov r, 5', 'mov t, 0', 'mov ri, 0', 'alloca buf, %d' % (8 * NW), 'alloca rb, 48']
     for k in range(NW):
@@ -208,11 +259,14 @@ def emit(d):
         o.append('p_%s: proto %s' % (c['name'], A.sig_text(c)))
     cn = sorted(set(x[1] for x in d['calls'] if x[0] == 'c'))
     for n in cn:
-        o += ['  import %s' % n, 'pc_%s: proto i64, %s' % (n, A.ptext(CNAT[n], 'a0'))]
+        o += ['  import %s' % n, 'pc_%s: proto %s, %s' % (n, CNAT_RET.get(n, 'i64'), A.ptext(CNAT[n], 'a0'))]
     if any(x[0] == 'va' for x in d['calls']):
         o += ['  import ext_va', 'pv: proto i64, i64:n, ...']
     o += driver_text(d, 'drv_f', d['calls'])
     o += driver_text(d, 'drv_r', list(reversed(d['calls'])))
+    for m in d['mres']:
+        o += ['  export ' + m['name'], '%s: func %s, i64:a0, i64:a1' % (m['name'], ', '.join(m['rets'])), '  local i64:r, ' + RLOCALS,
+              '  mul r, a0, 3', '  add r, r, a1'] + ['  ' + l for l in ret_code(m['rets'], 'r')] + ['  endfunc']
     o.append('  endmodule')
     return '\n'.join(o) + '\n'
 
@@ -241,7 +295,27 @@ def fold_val(r, p, words, pos):
 
 
 def ret_val(r, ret):
-    return {'i64': r, 'i32': sx(r, 32), 'u8': r & 255, 'd': r & 1048575, 'f': r & 65535, 'ld': r & 1048575}[ret] & M64
+    if ret in EXT:
+        return EXT[ret](r) & M64
+    return {'d': r & 1048575, 'f': r & 65535, 'ld': r & 1048575}[ret] & M64
+
+
+def res_hash(h, k):
+    return h if k == 0 else (h * 33 + k) & M64
+
+
+def expected_mre(m, a0, a1):
+    """the words the harness prints for a two-result entry called from C: integers narrowed, d / f as their bits"""
+    h, o = (a0 * 3 + a1) & M64, []
+    for k, ty in enumerate(m['rets']):
+        v = res_hash(h, k)
+        if ty in EXT:
+            o.append(sx(EXT[ty](v) & M64, 64))
+        elif ty == 'd':
+            o.append(struct.unpack('<q', struct.pack('<d', (v & 1048575) * 0.5))[0])
+        else:
+            o.append(struct.unpack('<I', struct.pack('<f', (v & 65535) * 0.5))[0])
+    return o
 
 
 def expected(d, rev, a0, a1):
@@ -254,13 +328,14 @@ def expected(d, rev, a0, a1):
                 s = (s * 5 + words[j]) & M64
             r = fold(r, s)
         elif call[0] == 'c':
-            r = fold(r, fold_val(17, CNAT[call[1]], words, 0))
+            r = fold(r, ret_val(fold_val(17, CNAT[call[1]], words, 0), CNAT_RET.get(call[1], 'i64')))
         else:
             c = d['callees'][call[1]]
             h = 17
             for j, p in enumerate(c['params']):
                 h = fold_val(h, p, words, j)
-            r = fold(r, ret_val(h, c['ret']))
+            for k, ty in enumerate(c['rets']):
+                r = fold(r, ret_val(res_hash(h, k), ty))
             for p in c['params']:
                 if A.is_rblk(p):
                     for off in range(0, p[1], 8):
@@ -274,6 +349,7 @@ def program(rng):
     """the dict shape of gen_c03_progs.gen_program"""
     d = gen_program(rng)
     funcs = [dict(name=c['name'], module=0, kind='twin', lref=False) for c in d['callees']]
+    funcs += [dict(name=m['name'], module=1, kind='twin', lref=False) for m in d['mres']]
     ents = [dict(name=n, module=1, kind='ii', lref=False) for n in ('drv_f', 'drv_r')]
     return dict(text=emit(d), nmodules=2, layered=True, funcs=funcs + ents, entries=ents, features=sorted(set(d['kinds'])), desc=d)
 
